@@ -45,3 +45,15 @@ def encOpt (f : α → String) : Option α → String
 abbrev Handler := List String → String
 
 end PcVerif.Proto
+
+namespace PcVerif.Proto
+/-- rationals as "num/den" -/
+def decRat (s : String) : Rat :=
+  match s.splitOn "/" with
+  | [n, d] => mkRat (decInt n) (decNat d)
+  | [n] => mkRat (decInt n) 1
+  | _ => 0
+def encRat (r : Rat) : String := toString r.num ++ "/" ++ toString r.den
+def encNats (l : List Nat) : String := if l.isEmpty then "_" else String.intercalate " " (l.map toString)
+def decNats (s : String) : List Nat := if s = "_" then [] else (s.splitOn " ").map decNat
+end PcVerif.Proto
